@@ -68,6 +68,14 @@ func verifCanary(label string, cond bool) {}
 //@   ensures err == nil ==> result0 != nil && fresh(result0) && remoteKeyOf(result0) == remoteKey
 //@   ensures err != nil ==> result0 == nil
 
+//@ func (*EncryptionAlgorithm).Decrypt
+//@   props C09
+//@   assumed
+//@   requires e != nil
+//@   assigns e.decrypt
+//@   ensures err == nil ==> len(cleartext) <= len(ciphertext)
+//@   ensures err != nil ==> len(cleartext) == 0
+
 //@ func (*EncryptionAlgorithm).VerifySignature
 //@   props C22 C09
 //@   assumed
